@@ -1624,8 +1624,9 @@ class TokamakEquilibrium(Equilibrium):
                     if region["psi"] is None:
                         raise ValueError("No psi values in region")
                     leg_psi = region["psi"]
-                    eqreg.pressure = lambda psi: self.pressure(
-                        leg_psi + sign * abs(psi - leg_psi)
+                    # (bind leg_psi and sign now: every leg has its own separatrix)
+                    eqreg.pressure = lambda psi, leg_psi=leg_psi, sign=sign: (
+                        self.pressure(leg_psi + sign * abs(psi - leg_psi))
                     )
                 else:
                     # Core region, so use the core pressure
